@@ -15,7 +15,9 @@ NAMES = ["B1", "a2", "Zz", "z0", "_x", "10", "9", "Alpha", "beta", "GAMMA", "r00
 ACCT_PATS = ["alice", "bob", "al*", "?ob", "*", "a*e", "alice:*", "nobody", "[ab]*", "al[!x]ce", "a\\*", "[a-c]lice", "[!a-z]ob", "alic[e", "*[e-t]"]
 ADDR_PATS = ["10.0.0.0/8", "10.1.2.0/24", "10.1.2.3", "10.1.*", "10.1.2.*", "10.*", "2001:db8::/32", "2001:db8:1::/48", "2001:db8:1:*", "*", "0.0.0.0/0",
              "10.1.2.2/31", "10.1.2.0/23", "2001:db8::/33", "2001:db8:8000::/33", "2001:db8:1::5/128", "10.1.3.0/24", "11.0.0.0/8", "2001:db8:1:0:0:0:0:4/126",
-             "10.1.2.3/32", "10.1.2.128/25", "2001:db8::/16", "2001:*", "10.1/16", "10.1.2/24", "10.1.2/23", "11.0/8"]
+             "10.1.2.3/32", "10.1.2.128/25", "2001:db8::/16", "2001:*", "10.1/16", "10.1.2/24", "10.1.2/23", "11.0/8",
+             # a prefix of no bits at all written with a base address that is not zero; a full 128-bit prefix
+             "10.0.0.0/0", "255.255.255.255/0", "2001:db8::/0", "2001:db8:1::5", "2001:db8:1:0:0:0:0:5/128"]
 USER_PATS = ["~*", "joe", "j?e", "*", "~joe", "?*", "root", "[~j]*", "j[a-o]e", "\\~joe", "[!~]*"]
 HOST_PATS = ["*.example.org", "host?.net", "*", "a.example.org", "*.net", "host??.net", "?*", "*.*", "10.*", "*:*", "2001:*", "*example.org", "?.example.org",
              "*/*", "[a-b].example.org*", "HOST*", "*[!.]"]
@@ -142,6 +144,10 @@ def probe(s, rng, cid, rules, ip=None):
            {"t": "nick", "id": cid, "name": "n%d" % cid},
            {"t": "userinfo", "id": cid, "user": user, "real": "Real Name"}]
     rng.shuffle(evs)
+    if host and rng.random() < 0.15:
+        # the server repeats the host name line with another name: the first one stands
+        k_ = next(i_ for i_, e_ in enumerate(evs) if e_["t"] == "host")
+        evs.insert(rng.randrange(k_ + 1, len(evs) + 1), {"t": "host", "id": cid, "name": rng.choice([h_ for h_ in HOSTS if h_ and h_ != host])})
     if rng.random() < 0.15:
         # re-query history: password first, the login-type services answer OK, a second password re-asks them,
         # the rest of the data arrives and the client is accepted by its timeout while the repeat query is in progress
@@ -238,6 +244,9 @@ def _worker(a):
             probe(s, rng, 10 + k, rules, ip=force_ip)
             if s.dead:
                 break
+            if rr.random() < 0.12:
+                # an operator looks at the statistics / the configuration report in between (reports change nothing)
+                s.do({"t": "stats"} if rr.random() < 0.6 else {"t": "noise", "line": "-1 ? config"})
             if seed % 4 == 1 and k == nprobes // 2:
                 rules, _ = straddle(s, rr, rules, svcs, 5000)
                 if s.dead:
